@@ -643,13 +643,19 @@ impl Offset {
         if let Some(err) = span.smallest_non_time_non_zero_unit_error() {
             return Err(err);
         }
-        let span_seconds = t::SpanZoneOffset::try_rfrom(
+        // N.B. The number of seconds in the span can exceed the range of
+        // an offset even when the sum doesn't. For example, `-12:00` plus 26
+        // hours is `+14:00`. So it's the sum that we need to check, and not
+        // the span.
+        let span_seconds = t::NoUnits::try_rfrom(
             "span-seconds",
             span.to_invariant_nanoseconds().div_ceil(t::NANOS_PER_SECOND),
         )?;
-        let offset_seconds = self.seconds_ranged();
+        let offset_seconds = t::NoUnits::rfrom(self.seconds_ranged());
         let seconds =
             offset_seconds.try_checked_add("offset-seconds", span_seconds)?;
+        let seconds =
+            t::SpanZoneOffset::try_rfrom("offset-seconds", seconds)?;
         Ok(Offset::from_seconds_ranged(seconds))
     }
 
@@ -658,17 +664,15 @@ impl Offset {
         self,
         duration: SignedDuration,
     ) -> Result<Offset, Error> {
-        let duration =
-            t::SpanZoneOffset::try_new("duration-seconds", duration.as_secs())
-                .with_context(|| {
-                    err!(
-                        "adding signed duration {duration:?} \
-                         to offset {self} overflowed maximum offset seconds"
-                    )
-                })?;
-        let offset_seconds = self.seconds_ranged();
+        // N.B. As with spans, it's the sum that needs to be in range, and
+        // not the duration.
+        let duration_seconds = t::NoUnits::new_unchecked(duration.as_secs());
+        let offset_seconds = t::NoUnits::rfrom(self.seconds_ranged());
         let seconds = offset_seconds
-            .try_checked_add("offset-seconds", duration)
+            .try_checked_add("offset-seconds", duration_seconds)
+            .and_then(|seconds| {
+                t::SpanZoneOffset::try_rfrom("offset-seconds", seconds)
+            })
             .with_context(|| {
                 err!(
                     "adding signed duration {duration:?} \
